@@ -111,6 +111,31 @@ Definition well_guarded (progs : list (list action)) : bool := forallb (scans []
 End Lockset.
 
 (* ------------------------------------------------------------------ *)
+(* Lock order and deadlock.  A thread is blocked when its next action is an Acq of a mutex somebody
+   holds; a configuration is deadlocked when some thread is unfinished and no thread can move.
+   `oscan` is the static lock-order check: every Acq m happens while holding only mutexes of
+   strictly smaller rank, every Rel releases a held mutex, a program ends holding nothing. *)
+Section Order.
+Variable rank : nat -> nat.
+
+Fixpoint oscan (held : list nat) (p : list action) : option (list nat) :=
+  match p with
+  | [] => Some held
+  | Acq m :: r => if forallb (fun x => rank x <? rank m) held then oscan (m :: held) r else None
+  | Rel m :: r => if mem_nat m held then oscan (remove_nat m held) r else None
+  | _ :: r => oscan held r
+  end.
+
+Definition ordered (held : list nat) (p : list action) : bool :=
+  match oscan held p with Some [] => true | _ => false end.
+
+Definition well_ordered (progs : list (list action)) : bool := forallb (ordered []) progs.
+End Order.
+
+Definition unfinished (c : cfg) : Prop := exists i t, nth_error c i = Some t /\ snd t <> [].
+Definition can_move (c : cfg) : Prop := exists i c', step c i = Some c'.
+
+(* ------------------------------------------------------------------ *)
 (* Idempotent lazy initialisation *)
 
 Section Lazy.
@@ -232,6 +257,10 @@ Definition op_is_possible_type_lazy := [Rd L_possible; Wr L_possible].          
 Definition op_abstract_alternative_nomutex :=                                              (* c07_no_abstract_mutex *)
   [Rd L_alternatives; Acq M_plan; Rd L_subplans; Wr L_subplans; Rel M_plan; Wr L_alternatives].
 Definition op_cache_reset_nolock := [Wr L_cache_entries; Wr L_cache_order].                (* c07_reset_without_lock *)
+
+(* the lock order of the code: abstractMu is taken before planMu (abstractAlternative plans under both),
+   the cache mutex before the counters; the rank of a mutex is its number *)
+Definition lib_rank (m : nat) : nat := m.
 
 (* request-level entry points as sequences of summary operations (ids into lib_ops) *)
 Definition op_of_id (k : nat) : list action := nth k lib_ops [].
